@@ -28,6 +28,7 @@ struct TS : mp::SolverImpl<mp::Problem> {
   }
   int DoSolve(mp::Problem &, mp::SolutionHandler &) { return 0; }
   void ReadNL(fmt::StringRef) {}
+  bool HandleUnknownOptionQuietly = true;
   void HandleUnknownOption(const char *) override { }
 };
 static int parse_one(const char *arg, bool verbose) {
@@ -51,6 +52,17 @@ static int sweep() {
       for (const char *pre : {"sopt=", "sopt ", "iopt=1 sopt=", "sopt= "}) { ++n; if (parse_one((std::string(pre) + v).c_str(), false)) return 10; }
     std::vector<std::string> next; for (const std::string &v : cur) for (char c : alpha) next.push_back(v + c); cur.swap(next);
   }
+  // integer values: inside the range of int they are stored exactly, outside they are rejected (never wrapped)
+  for (const char *v : {"2147483647", "-2147483648", "0", "-1", "2147483648", "-2147483649", "4294967297", "99999999999999999999", "-99999999999999999999"}) {
+    std::string text = std::string("iopt=") + v; ++n;
+    TS s; bool threw = false;
+    try { s.ParseOptionString(text.c_str(), mp::BasicSolver::NO_OPTION_ECHO); } catch (const mp::Error &) { threw = true; } catch (const std::exception &) { threw = true; }
+    long double want = strtold(v, 0); bool fits = want >= -2147483648.0L && want <= 2147483647.0L;
+    if (fits ? (threw || s.has_errors_ || s.i_ != (int)want) : (!threw && !s.has_errors_)) {
+      printf("VIOLATED: option text [%s]: integer option holds %d afterwards, error reported: %d (a value outside int must be rejected, a value inside stored exactly)\n", text.c_str(), s.i_, (int)(threw || s.has_errors_));
+      return 10;
+    }
+  }
   // queries: 'name=?' followed by the end of the text or any white space leaves every value unchanged and reports no error
   for (const char *name : {"iopt", "dopt", "sopt"}) for (const char *eq : {"=", " = ", " "}) for (const char *after : {"", " ", "\t", "\n", "\r\n", "\v", "\f", " iopt=5", "\tiopt=5", "\niopt=5"}) {
     std::string text = std::string("iopt=7 dopt=2.5 sopt=abc ") + name + eq + "?" + after; ++n;
@@ -63,7 +75,21 @@ static int sweep() {
       return 10;
     }
   }
-  printf("ok: %d option texts parsed without memory error or stray exception; queries leave all values unchanged\n", n); return 0;
+  // order of the sources: mp_options, then <solver>_options, then the command line; later assignments override earlier ones;
+  // only command-line arguments are taken whole (FROM_COMMAND_LINE)
+  for (int mask = 0; mask < 8; ++mask) {
+    if (mask & 1) setenv("mp_options", "iopt=1 sopt=e1 x", 1); else unsetenv("mp_options");
+    if (mask & 2) setenv("testsolver_options", "iopt=2 sopt=e2 x", 1); else unsetenv("testsolver_options");
+    char a0[] = "iopt=3", a1[] = "sopt=c3 x"; char *argv[] = {a0, a1, 0}; char *none[] = {0};
+    TS s; s.HandleUnknownOptionQuietly = true; ++n;
+    try { s.ParseOptions((mask & 4) ? argv : none, mp::BasicSolver::NO_OPTION_ECHO); } catch (const std::exception &e) { printf("VIOLATED: ParseOptions threw %s\n", e.what()); return 10; }
+    int wi = (mask & 4) ? 3 : (mask & 2) ? 2 : (mask & 1) ? 1 : 0;
+    std::string ws = (mask & 4) ? "c3 x" : (mask & 2) ? "e2" : (mask & 1) ? "e1" : "";
+    if (s.i_ != wi || s.s_ != ws) { printf("VIOLATED: sources mp_options=%d testsolver_options=%d command line=%d: iopt=%d (expected %d) sopt=[%s] (expected [%s]): later sources must override earlier ones\n",
+                                           mask & 1, (mask >> 1) & 1, (mask >> 2) & 1, s.i_, wi, s.s_.c_str(), ws.c_str()); return 10; }
+  }
+  unsetenv("mp_options"); unsetenv("testsolver_options");
+  printf("ok: %d option texts parsed without memory error or stray exception; queries leave all values unchanged; sources in order\n", n); return 0;
 }
 int main(int argc, char **argv) {
   if (argc < 2) return 2;
